@@ -1511,12 +1511,13 @@ void reb_tools_megno_update(struct reb_simulation* r, double dY, double dt_done)
 	r->megno_mean_t += _d_t/(double)r->megno_n;
 	double _d_Y = reb_simulation_megno(r) - r->megno_mean_Y;
 	r->megno_mean_Y += _d_Y/(double)r->megno_n;
+	// Welford update: deviations are measured from the means before this sample was added
 	r->megno_cov_Yt += ((double)r->megno_n-1.)/(double)r->megno_n 
-					*(r->t-r->megno_mean_t)
-					*(reb_simulation_megno(r)-r->megno_mean_Y);
+					*_d_t
+					*_d_Y;
 	r->megno_var_t  += ((double)r->megno_n-1.)/(double)r->megno_n 
-					*(r->t-r->megno_mean_t)
-					*(r->t-r->megno_mean_t);
+					*_d_t
+					*_d_t;
 }
 
 #define ROT32(x, y) ((x << y) | (x >> (32 - y))) // avoid effort
